@@ -49,10 +49,28 @@ pub fn td_line(rng: &mut Rng, maxvars: usize) -> String {
         }
         rng.shuffle(&mut raw);
     }
+    // directed family: a parity constraint over three or four variables (all clauses of one
+    // parity) plus up to two further clauses — the shape under which the semantic store shares a
+    // sub-function with its negation, i.e. complemented edges inside the diagram with two parents
+    let mut parity = false;
+    if maxvars >= 4 && rng.chance(1, 5) {
+        parity = true;
+        let vs = rng.perm(maxvars);
+        let k = 3 + rng.below(2) as usize;
+        let want = rng.coin();
+        raw.truncate(rng.below(3) as usize);
+        for m in 0..(1u32 << k) {
+            // forbid every assignment of the wrong parity: clause = negation of that assignment
+            if (m.count_ones() % 2 == 1) != want {
+                raw.push((0..k).map(|i| (vs[i], (m >> i) & 1 == 0)).collect());
+            }
+        }
+        rng.shuffle(&mut raw);
+    }
     let cnf = to_cnf(&raw);
     let n = cnf.num_vars();
     let order = rng.perm(n);
-    let sem = rng.chance(1, 3);
+    let sem = if parity { rng.chance(3, 4) } else { rng.chance(1, 3) };
     let head = format!(
         "td n={} raw={} cnf={} order={} store={}",
         n,
